@@ -130,6 +130,8 @@ type kmsg struct {
 	parts      int // number of concatenated encodings (0: hand-built message)
 	hasMapping bool
 	hops       int // C19: number of re-serialisations this content went through
+	tainted    bool
+	spans      [2]ispan // real index spans of a tainted producer (positive, negative)
 }
 
 type fleetExec struct {
@@ -138,12 +140,17 @@ type fleetExec struct {
 	order []int
 	msgs  map[int]*kmsg
 	hook  fleetHook
+	// lastChmap describes the most recent successful ChangeMapping (for the hooks).
+	lastChmap *chmapInfo
 }
 
 // fleetHook is the per-property part of the executor.
 type fleetHook interface {
 	// event handles property-specific event kinds; returns true if it did.
 	event(x *fleetExec, e engine.Event) bool
+	// before runs before a common event on node nd is executed; the returned
+	// function (if any) runs after it, whether or not the event was a no-op.
+	before(x *fleetExec, e engine.Event, nd *knode) func()
 	// after runs after every executed common event (invariants).
 	after(x *fleetExec, e engine.Event, nd *knode)
 	// sent is called after a node has been serialised into message m.
@@ -160,6 +167,7 @@ type noHook struct{}
 func (noHook) event(*fleetExec, engine.Event) bool                                      { return false }
 func (noHook) after(*fleetExec, engine.Event, *knode)                                   {}
 func (noHook) sent(*fleetExec, engine.Event, *knode, *kmsg)                             {}
+func (noHook) before(*fleetExec, engine.Event, *knode) func()                           { return nil }
 func (noHook) decoded(*fleetExec, engine.Event, *knode, *kmsg, sk, *refmodel.RefSketch) {}
 func (noHook) query(*fleetExec, engine.Event, *knode)                                   {}
 func (noHook) quiesce(*fleetExec)                                                       {}
@@ -306,7 +314,12 @@ func (x *fleetExec) step(e engine.Event) {
 	}
 	sig := x.sigFor(e)
 	done := false
+	if post := x.hook.before(x, e, nd); post != nil {
+		defer post()
+	}
 	switch e.Ev {
+	case "chmap":
+		done = x.chmap(e, nd, sig)
 	case "add", "addw":
 		v, w := float64(e.V), float64(e.W)
 		if e.Ev == "add" {
@@ -323,10 +336,7 @@ func (x *fleetExec) step(e engine.Event) {
 			return
 		}
 		side, idx := route(nd.mapping, v)
-		if side == 1 && w != 0 && !spanFitsAfter(nd.model.Pos, idx, idx) {
-			return
-		}
-		if side == -1 && w != 0 && !spanFitsAfter(nd.model.Neg, idx, idx) {
+		if side != 0 && w != 0 && !x.spanOK(nd, side, idx, idx) {
 			return
 		}
 		nd.each(func(s sk) {
@@ -349,7 +359,7 @@ func (x *fleetExec) step(e engine.Event) {
 		if src == nil || e.M == e.N || src.mkey != nd.mkey || (nd.exact() && !src.exact()) {
 			return
 		}
-		if !x.mergeFits(nd.model, src.model) {
+		if !x.mergeFitsNodes(nd, src) {
 			return
 		}
 		x.mergeNodes(nd, src, sig)
@@ -506,7 +516,10 @@ func (x *fleetExec) send(e engine.Event, nd *knode, sig string) {
 	if id <= 0 || x.msgs[id] != nil {
 		return
 	}
-	m := &kmsg{form: e.S, model: nd.model.Clone(), spec: nd.spec, mkey: nd.mkey, exact: nd.exact(), sentAt: x.at, parts: 1}
+	m := &kmsg{form: e.S, model: nd.model.Clone(), spec: nd.spec, mkey: nd.mkey, exact: nd.exact(), sentAt: x.at, parts: 1, tainted: nd.tainted}
+	if nd.tainted {
+		m.spans = x.realSpans(nd.real)
+	}
 	var before *skSnap
 	wantSnap := x.prop == "C06" || x.prop == "C09" || x.prop == "C14"
 	if wantSnap {
@@ -651,8 +664,20 @@ func (x *fleetExec) deliver(e engine.Event, nd *knode, sig string) bool {
 	if (m.form == "pb" || m.form == "pbstream") && nd.exact() {
 		return false
 	}
-	if !x.mergeFits(nd.model, m.model) {
+	if m.tainted || nd.tainted {
+		for i, side := range []int{1, -1} {
+			if sp := m.spanOf(i); sp.ok && !x.spanOK(nd, side, sp.lo, sp.hi) {
+				return false
+			}
+		}
+		if nd.model.ValsCount()+m.model.ValsCount() > 1e12 {
+			return false
+		}
+	} else if !x.mergeFits(nd.model, m.model) {
 		return false
+	}
+	if m.tainted {
+		nd.tainted = true
 	}
 	m.deliveries++
 	if m.deliveries > 1 {
@@ -948,4 +973,88 @@ func sortedNodeIDs(x *fleetExec) []int {
 	ids := append([]int(nil), x.order...)
 	sort.Ints(ids)
 	return ids
+}
+
+// ---- budgets for nodes whose model no longer describes the bins (tainted) ------------------
+
+type ispan struct {
+	lo, hi int
+	ok     bool
+}
+
+func (x *fleetExec) realSpan(st store.Store) ispan {
+	var lo, hi int
+	var e1, e2 error
+	x.lib("MinIndex", "", func() { lo, e1 = st.MinIndex() })
+	x.lib("MaxIndex", "", func() { hi, e2 = st.MaxIndex() })
+	return ispan{lo, hi, e1 == nil && e2 == nil}
+}
+
+func (x *fleetExec) realSpans(s sk) [2]ispan {
+	return [2]ispan{x.realSpan(s.GetPositiveValueStore()), x.realSpan(s.GetNegativeValueStore())}
+}
+
+// spanOf returns the span of one side of a message (0 positive, 1 negative).
+func (m *kmsg) spanOf(side int) ispan {
+	if m.tainted {
+		return m.spans[side]
+	}
+	st := m.model.Pos
+	if side == 1 {
+		st = m.model.Neg
+	}
+	b := st.Bins()
+	if len(b) == 0 {
+		return ispan{}
+	}
+	return ispan{b[0].Index, b[len(b)-1].Index, true}
+}
+
+// spanOK: would the node's store on that side stay inside its span budget
+// after also holding lo..hi? Tainted nodes are measured on the real store.
+func (x *fleetExec) spanOK(nd *knode, side int, lo, hi int) bool {
+	ms := nd.model.Pos
+	if side < 0 {
+		ms = nd.model.Neg
+	}
+	if !nd.tainted {
+		return spanFitsAfter(ms, lo, hi)
+	}
+	b := spanBudget(nd.spec.Store)
+	if b == math.MaxInt64 {
+		return true
+	}
+	st := nd.real.GetPositiveValueStore()
+	if side < 0 {
+		st = nd.real.GetNegativeValueStore()
+	}
+	cur := x.realSpan(st)
+	if cur.ok {
+		if cur.lo < lo {
+			lo = cur.lo
+		}
+		if cur.hi > hi {
+			hi = cur.hi
+		}
+	}
+	return hi-lo < b
+}
+
+func (x *fleetExec) mergeFitsNodes(dst, src *knode) bool {
+	if !dst.tainted && !src.tainted {
+		return x.mergeFits(dst.model, src.model)
+	}
+	var spans [2]ispan
+	if src.tainted {
+		spans = x.realSpans(src.real)
+	} else {
+		m := &kmsg{model: src.model}
+		spans = [2]ispan{m.spanOf(0), m.spanOf(1)}
+	}
+	for i, side := range []int{1, -1} {
+		if spans[i].ok && !x.spanOK(dst, side, spans[i].lo, spans[i].hi) {
+			return false
+		}
+	}
+	return dst.model.ValsCount()+src.model.ValsCount() < 1e12
 }
